@@ -34,6 +34,14 @@ pub assume_specification [<Scru128Id as PartialOrd>::gt] (a: &Scru128Id, b: &Scr
 
 //@@ item file=src/store/ttl.rs enum=TTL
 //@@ end
+impl PartialEq for TTL {
+    #[verifier::external_body]
+    fn eq(&self, other: &TTL) -> (r: bool) ensures r == (*self == *other) { unimplemented!() }
+}
+impl vstd::std_specs::cmp::PartialEqSpecImpl for TTL {
+    open spec fn obeys_eq_spec() -> bool { true }
+    open spec fn eq_spec(&self, other: &TTL) -> bool { *self == *other }
+}
 //@@ item file=src/store/mod.rs struct=Frame
 //@@ rewrite: ssri::Integrity ==> ! Integrity
 //@@ rewrite: serde_json::Value ==> ! JsonValue
